@@ -118,6 +118,7 @@ type Contracts struct {
 	Abstract map[string]*AbstractType // key: importpath.Name
 	Types    map[string]*TypeSpec
 	PtrIfaces map[string]bool // interfaces whose dynamic values are always pointers
+	NonNilIfaces map[string]bool // interfaces whose values found in memory are assumed non-nil (ledger: nonnil-stored)
 	Assumed  []string    // assumptions declared in contract files (assumed-stable, ...)
 	NonNil   []string    // package-level variables assumed non-nil (ledger)
 	ChanMsgs []*ChanSpec // package-level message invariants: chanmsg T (v): P
@@ -126,7 +127,7 @@ type Contracts struct {
 }
 
 func NewContracts() *Contracts {
-	return &Contracts{Funcs: map[string]*FuncSpec{}, Specs: map[string]*SpecFunc{}, Abstract: map[string]*AbstractType{}, Types: map[string]*TypeSpec{}, PtrIfaces: map[string]bool{}}
+	return &Contracts{Funcs: map[string]*FuncSpec{}, Specs: map[string]*SpecFunc{}, Abstract: map[string]*AbstractType{}, Types: map[string]*TypeSpec{}, PtrIfaces: map[string]bool{}, NonNilIfaces: map[string]bool{}}
 }
 
 var headWords = map[string]bool{
@@ -135,7 +136,7 @@ var headWords = map[string]bool{
 	"modifies": true, "panics": true, "decreases": true, "pure": true, "log": true, "logs": true, "loop": true,
 	"invariant": true, "trusted": true, "source": true, "nobody": true, "lock": true, "shared": true,
 	"ghost": true, "chan": true, "chanmsg": true, "params": true, "creates": true, "consumes": true, "havoc": true, "assert": true,
-	"holds": true, "waitset": true, "immutable": true, "tracks": true, "ptriface": true, "nonnil": true, "preserves": true, "each": true, "entry": true, "exit": true, "wraparound": true,
+	"holds": true, "waitset": true, "immutable": true, "tracks": true, "ptriface": true, "nonnil": true, "nonnil-stored": true, "preserves": true, "each": true, "entry": true, "exit": true, "wraparound": true,
 }
 
 type rawLine struct {
@@ -235,6 +236,12 @@ func (cs *Contracts) LoadContractFile(path, pkgPath string, pkgImports map[strin
 			}
 		case "ptriface":
 			cs.PtrIfaces[cs.qualify(ctx, strings.TrimSpace(rest))] = true
+			curF, curL, curT = nil, nil, nil
+		case "nonnil-stored":
+			// nonnil-stored pkg.Iface: values of this interface type read from memory are never nil
+			// (assumed for memory written by code without a contract; checked at the stores and
+			// single-element appends of the functions under contract)
+			cs.NonNilIfaces[cs.qualify(ctx, strings.TrimSpace(rest))] = true
 			curF, curL, curT = nil, nil, nil
 		case "nonnil":
 			// nonnil pkg.Var[, pkg.Var]: package-level error values that are never nil (assumed)
